@@ -11,4 +11,20 @@ HARNESSES = [
     H('scalar_negate_add', 'scalar.c', 'h_scalar_negate_add', route='A', unwind=34, timeout=300, cbmc=['--object-bits', '10'],
       functions=['secp256k1_scalar_add', 'secp256k1_scalar_negate', 'secp256k1_scalar_cond_negate', 'secp256k1_scalar_is_high', 'secp256k1_scalar_eq'],
       bounds='all pairs of canonical scalars (2 x 256 bits); loops fully unwound', assumptions=['inputs are canonical (< n), as produced by set_b32 without overflow']),
+    # ---- field element layer (field.c) ----
+    H('fe_codec', 'field.c', 'h_fe_codec', route='A', unwind=36, timeout=300, cbmc=['--object-bits', '10'],
+      functions=['secp256k1_fe_set_b32_limit', 'secp256k1_fe_set_b32_mod', 'secp256k1_fe_get_b32', 'secp256k1_fe_is_odd', 'secp256k1_fe_is_zero', 'secp256k1_fe_normalize'],
+      bounds='all 2^256 32-byte inputs; loops fully unwound'),
+    H('fe_normalize', 'field.c', 'h_fe_normalize', route='A', unwind=36, timeout=300, cbmc=['--object-bits', '10'], variants=[{'MAG': 1}, {'MAG': 8}, {'MAG': 32}], backends=['default', 'cadical', 'kissat'],
+      functions=['secp256k1_fe_normalize', 'secp256k1_fe_normalize_var', 'secp256k1_fe_normalize_weak', 'secp256k1_fe_normalizes_to_zero', 'secp256k1_fe_normalizes_to_zero_var', 'secp256k1_fe_get_b32', 'secp256k1_fe_is_odd', 'secp256k1_fe_is_zero'],
+      bounds='every 5x52 limb pattern of magnitude <= 1, 8, 32 (32 = library maximum); reference = 272-bit big-endian value reduced by binary long division by p'),
+    H('fe_negate', 'field.c', 'h_fe_negate', route='A', unwind=36, timeout=300, cbmc=['--object-bits', '10'], variants=[{'MAG': 1}, {'MAG': 8}, {'MAG': 31}],
+      functions=['secp256k1_fe_negate', 'secp256k1_fe_add', 'secp256k1_fe_normalizes_to_zero', 'secp256k1_fe_normalize', 'secp256k1_fe_get_b32'],
+      bounds='every limb pattern of magnitude <= m for m = 1, 8, 31 (negate called with that m; 31 = largest m the library allows)', assumptions=['operands respect the magnitude preconditions documented in field.h']),
+    H('fe_add', 'field.c', 'h_fe_add', route='A', unwind=36, timeout=300, cbmc=['--object-bits', '10'], variants=[{'MAG': 1}, {'MAG': 16}],
+      functions=['secp256k1_fe_add', 'secp256k1_fe_normalize', 'secp256k1_fe_get_b32'],
+      bounds='all pairs of limb patterns of magnitude <= 1 and <= 16 (sum magnitude <= 32 = library maximum)', assumptions=['operands respect the magnitude preconditions documented in field.h']),
+    H('fe_cmp', 'field.c', 'h_fe_cmp', route='A', unwind=36, timeout=300, cbmc=['--object-bits', '10'], variants=[{'MAG': 1}, {'MAG': 8}],
+      functions=['secp256k1_fe_cmp_var', 'secp256k1_fe_equal', 'secp256k1_fe_normalize', 'secp256k1_fe_normalize_var', 'secp256k1_fe_get_b32'],
+      bounds='all pairs of limb patterns of magnitude <= 1 (fe_equal, cmp_var) and <= 8 (cmp_var after normalisation)'),
 ]
